@@ -39,7 +39,8 @@ PROP = dict(
          "pairs, \\/ , extra whitespace, LF or CRLF, with or without final newline); `csv`/tsv files (quoted fields, embedded "
          "separators/quotes/newlines, header or not, duplicate and empty column names, ragged rows); `lines` with 11 custom "
          "separators incl. self-overlapping aa/aba, partial separators in the text, the separator placed across the "
-         "4096/8192/16384/32768-byte scanner buffer boundaries, default separator with CR LF; `stdin` the same files piped "
+         "4096/8192/16384/32768-byte scanner buffer boundaries, pieces of 65534..65537 bytes around the 64 KiB token limit, default "
+         "separator with CR LF; `proj` csv/json files read with a pruned schema (cyclic mask over the inferred fields); `stdin` the same files piped "
          "into a replaced os.Stdin in seeded chunk sizes (1..1 MiB) with 1-3 preview opens; `jsonq` 0..2500-line files through "
          "the real worker pool with seeded per-batch delays, the observed schedule (arrival order, produce calls, reader-done) "
          "is replayed on the Lean queue model. non-trivial = a run that returned at least two records (jsonq: at least two "
@@ -48,8 +49,9 @@ PROP = dict(
     assumptions=[
         "fastjson tokenises JSON correctly (escapes, numbers); encoding/csv decodes RFC 4180 records; both are trusted libraries "
         "exercised end-to-end by the correspondence run",
-        "bufio.Scanner follows its documented contract (split function called on the unconsumed window, atEOF at the end); "
-        "tokens are shorter than the scanner's maximal token size (64 KiB for lines, 1 MiB for JSON), otherwise an error is returned",
+        "bufio.Scanner follows its documented contract (split function called on the unconsumed window, atEOF at the end, the "
+        "window never exceeds the maximal buffer size, a full window without a token is ErrTooLong); lines_split assumes every piece "
+        "with its separator fits the 64 KiB buffer (fitsTok) - otherwise the model, like the code, reports an error",
         "every line of the file parses (a parse error is returned as an error: reorder_parse_error)",
         "JSON rows beyond the 100-row preview fit the inferred schema (otherwise an error is reported, C24; rows within the preview "
         "always fit: Octo.C24.json_preview_no_error); object keys are distinct within one object",
